@@ -6,7 +6,7 @@
 (* by all columns of the row.  Numbers are modelled as integers: a result    *)
 (* that is not a whole number, a division by zero and text operands make the *)
 (* model abstain (ok = FALSE, which spreads to whatever is computed from it).*)
-(*   f      the entry: [size, hardlinks, name]                               *)
+(*   f      the entry: [size, hardlinks, lines, name]                               *)
 (*   cache  a set of <<key, ok, v>> with at most one triple per key          *)
 (* EV returns [ok, v, cache]: the value and the cache after the call.        *)
 EXTENDS ExprKey
@@ -28,7 +28,8 @@ Calc(op, a, b) ==
     [] OTHER -> [ok |-> FALSE, v |-> 0]
 
 IsLiteral(e) == e.function = NONE /\ e.field = NONE /\ IsNone(e.left) /\ e.val.some
-FieldVal(fd, f) == CASE fd = "Size" -> [ok |-> TRUE, v |-> f.size] [] fd = "Hardlinks" -> [ok |-> TRUE, v |-> f.hardlinks] [] OTHER -> [ok |-> FALSE, v |-> 0]
+FieldVal(fd, f) == CASE fd = "Size" -> [ok |-> TRUE, v |-> f.size] [] fd = "Hardlinks" -> [ok |-> TRUE, v |-> f.hardlinks]
+                     [] fd = "LineCount" -> [ok |-> TRUE, v |-> f.lines] [] OTHER -> [ok |-> FALSE, v |-> 0]
 
 RECURSIVE EV(_, _, _)
 EV(e, f, cache) ==
